@@ -458,9 +458,13 @@ def run(case):
       exc = None
       try:
         if kind == 'bad_name':
-          gin.external_configurable(fresh_fn('Zq'), name='bad name')
+          gin.external_configurable(
+              fresh_fn('Zq'),
+              name=['bad name', 'Zq_nl\n', '1Zq', 'Zq.'][op['n'] % 4])
         elif kind == 'bad_module':
-          gin.external_configurable(fresh_fn('Zq'), name='Zq', module='bad..mod')
+          gin.external_configurable(
+              fresh_fn('Zq'), name='Zq',
+              module=['bad..mod', 'some.mod\n', 'a b'][op['n'] % 3])
         elif kind == 'duplicate_other':
           gin.external_configurable(fresh_fn(op['target']), name=op['target'],
                                     module=MOD)
